@@ -681,6 +681,84 @@ def check_r124(fx, rep):
     rep.floor("R12.4", n_sites, 6, "word-type constructions with a width argument outside the type-expression constructors")
 
 
+def check_type_spans(fx, rep, rule="R12.2"):
+    """Type-level spans (`Span::new(var, offset, size)`) built outside merge - by inference rules and passes - describe bits
+    inside the word only if offset AND size come from one validated carrier (the two fields of one `SubWord` / packed-span
+    node, whose construction R12.2 bounds together), are constants with offset + size <= 256, or are compared with the word
+    size on the way. An offset taken from one node and a size from another (or from an arbitrary constant) is bounded by nothing."""
+    SPAN = "tc::expression::Span"
+    n = 0
+    for b in fx.fn_bodies():
+        if not b.get("hir") or b.get("from_expansion") or not b["def"].startswith(("<tc::rule::", "tc::rule::", "<tc::lift::", "tc::lift::", "tc::state::", "tc::TypeChecker")):
+            continue
+        root = b["hir"]["value"]
+        mutated = None
+        carrier = None
+        for node, ps in F.walk(root):
+            off = size = None
+            if node.get("k") == "Call" and F.strip_generics(F.callee_def(node) or "") == SPAN + "::new" and len(node["args"]) == 3:
+                off, size = node["args"][1], node["args"][2]
+            elif node.get("k") == "Struct" and node.get("adt") == SPAN:
+                fl = {f["field"]: f["e"] for f in node["fields"]}
+                off, size = fl.get("offset"), fl.get("size")
+            if off is None or size is None:
+                continue
+            if mutated is None:
+                mutated = T.mutated_locals(root)
+                # local -> (id of the struct pattern that binds it, variant, field)
+                carrier = {}
+                for m, _ in F.walk(root):
+                    if isinstance(m, dict) and m.get("p") == "Struct":
+                        for f in m.get("fields", []):
+                            if f["pat"].get("p") == "Bind":
+                                carrier[f["pat"]["local"]] = (id(m), m.get("variant") or (m.get("adt") or "").split("::")[-1], f["field"])
+            env = T.env_at(ps, node, mutated)
+            to, ts = T.term(off, env, mutated), T.term(size, env, mutated)
+
+            def strip(x):
+                while isinstance(x, tuple) and x and x[0] in ("ref", "deref") and len(x) > 1:
+                    x = x[1]
+                return x
+
+            to, ts = strip(to), strip(ts)
+            n += 1
+            rep.fn(b["def"])
+
+            def const(x):
+                if x[0] == "lit":
+                    try:
+                        return int(x[1])
+                    except (TypeError, ValueError):
+                        return None
+                if x[0] == "path":
+                    return fx.const_value(x[1])
+                return None
+
+            ok = False
+            why = "offset and size do not come from one validated node"
+            co, cs = const(to), const(ts)
+            if co is not None and cs is not None:
+                ok = co + cs <= 256
+                why = f"constants {co} + {cs} exceed the word"
+            elif to[0] == "local" and ts[0] == "local" and to[1] in carrier and ts[1] in carrier:
+                a, c = carrier[to[1]], carrier[ts[1]]
+                ok = a[0] == c[0] and a[2] == "offset" and c[2] == "size" and (a[1] in ("SubWord", "PackedSpan") or "Span" in str(a[1]))
+            elif to[0] == "field" and ts[0] == "field" and to[1] == ts[1] and to[2] == "offset" and ts[2] == "size":
+                ok = True  # span.offset / span.size of one packed span
+            elif co == 0 and ts[0] == "local" and ts[1] in carrier and carrier[ts[1]][2] in ("size", "width"):
+                ok = True
+            elif cs == 256 and to[0] == "bin" and to[1] == "Mul" and (const(strip(to[2])) == 256 or const(strip(to[3])) == 256):
+                ok = True  # word #k of a multi-word value (a struct behind a mapping): whole words at word-aligned offsets
+            if not ok:
+                # a comparison with the word size that is known to hold here
+                for lhs, rhs, strict in T.upper_bounds(ps, node, env, mutated):
+                    if mentions_word_bits(rhs, fx) and any(st == to or st == ts for st in T.subterms(lhs)) and lhs[0] == "bin" and lhs[1] == "Add":
+                        ok = True
+            k = sum(1 for y in rep.instances.get(rule, []) if y.startswith(f"type-span:{F.strip_generics(b['def'])}#")) + 1
+            rep.oblige(ok, rule, f"type-span:{F.strip_generics(b['def'])}#{k}", F.loc(node["span"]), f"`{b['def']}` builds a type-level span at (`{T.short(to)[:40]}`, `{T.short(ts)[:40]}`): {why}, so nothing bounds offset + size by the word size and the entry reported for it can lie (partly) outside its slot", sample={"rule": rule, "fn": b["def"], "offset": T.short(to)[:40], "size": T.short(ts)[:40]} if n <= 4 else None)
+    rep.floor(rule, n, 3, "type-level spans built by inference rules and passes")
+
+
 def check_reported_width(fx, rep, rule="R12.4"):
     """The width reported for a type is never larger than the width inferred for it: where the type checker turns a bit width
     into the `length` / `size` of an ABI type, the only arithmetic on the way rounds down (`/ BYTE_SIZE_BITS`). Rounding up
@@ -771,6 +849,7 @@ def check(fx, rep, tier):
     check_r123(fx, rep)
     check_r124(fx, rep)
     check_reported_width(fx, rep)
+    check_type_spans(fx, rep)
     check_r125(fx, rep)
     return rep.finish(
         "Who-may-write audit of the layout's entry vector plus the push-then-sort-by-(index,offset) path rule in the insertion method and the "
